@@ -9,11 +9,11 @@ import (
 	"crypto/sha256"
 	"encoding/hex"
 	"encoding/json"
+	"fmt"
 	"math/big"
+	"reflect"
 	"sort"
 	"strconv"
-	"fmt"
-	"reflect"
 	"strings"
 
 	"github.com/aergoio/aergo/v2/account/key"
@@ -37,7 +37,11 @@ func hx(b []byte) string {
 
 func main() {
 	run = vh.Start("c19", "enc: random block headers / tx bodies (boundary integers, empty and odd-length byte fields), real digest input vs model; "+
-		"mut: every exported field of BlockHeader/TxBody mutated singly (bit flip, append, truncate) against all four digests; "+
+		"mut: every exported field of BlockHeader/TxBody mutated singly (bit flip, append, prepend, truncate) against all four digests; "+
+		"merkle: every entry count 0..40 (thorough ..130), nil and odd-length entry hashes; root oracle on same-length changes/swaps, append/drop, all same-length lists over 3 letters up to length 4 (6), deliberate odd-duplication probe; "+
+		"receipts: well-formed and ill-formed receipts (with/without events, bloom, fee delegation) in both formats at and around the V2 fork height: store/Merkle bytes, decode of exact/truncated/trailing bytes, Receipts container through gob, receipts root, single-field mutation oracle; "+
+		"chain ids incl. '/' and non-UTF-8 names, int32 boundaries, mutated/truncated bytes, MakeChainId, ChainIdEqualWithoutVersion; "+
+		"hardfork: sorted/unsorted configs, every height next to a fork height, all 256 configs over heights 0..3, database copies altered/missing/newer/bad keys; genesis gob round trip (real code only); "+
 		"non-trivial = the operation reached a non-error model clause; distinct by (op, answer)")
 	// the model prints the input of a digest it cannot observe directly as `sha256:<hex>`; evaluated here with SHA-256
 	run.EvalTerms(func(line string) string {
@@ -1075,7 +1079,7 @@ func receipts() {
 		}
 
 		// receipts root = Merkle root over the receipt leaves (+ the bloom leaf); leaves obtained from the real code
-		if allWf || true {
+		{
 			var leaves [][]byte
 			okLeaves := true
 			for _, r := range rs {
@@ -1538,8 +1542,8 @@ func genesisStore() {
 		}
 		total := new(big.Int).SetBytes(rng.Bytes(rng.Intn(14)))
 		g.AddBalance(total)
-		stored := g.Bytes()                       // tx.Set(dbkey.Genesis(), genesis.Bytes())
-		storedBal := g.TotalBalance().Bytes()     // tx.Set(dbkey.GenesisBalance(), totalBalance.Bytes())
+		stored := g.Bytes()                        // tx.Set(dbkey.Genesis(), genesis.Bytes())
+		storedBal := g.TotalBalance().Bytes()      // tx.Set(dbkey.GenesisBalance(), totalBalance.Bytes())
 		storedCid := g.Block().GetHeader().ChainID // the genesis block carries ID.Bytes()
 		back := types.GetGenesisFromBytes(stored)
 		run.Eval(fmt.Sprintf("genesis %s %d %v %v", cidTokens(c), g.Timestamp, g.BPs, g.EnterpriseBPs), true)
